@@ -293,7 +293,8 @@ Definition w_has_schema (f : wfacts) : bool := w_builtin f || (w_loaded f && w_f
 (* the text that is parsed fails to tokenise/parse: the new content (content / normalize mode) or the existing
    file (changes mode) *)
 Definition w_parse_fail (f : wfacts) : bool := if w_changes f then w_io f =? 3 else negb (w_pst f =? 0).
-(* lenient + parse_error_policy="salvage": a failed parse is replaced by a fabricated document *)
+(* lenient + parse_error_policy="salvage": a failed parse is replaced by a salvaged carrier document (the flag local
+   `salvaged` of WriteTool.execute: see write_salvaged_flag_is_fact) *)
 Definition w_salvaged (f : wfacts) : bool :=
   negb (w_changes f) && w_lenient f && (w_policy f =? 1) && negb (w_pst f =? 0).
 Definition w_cas_fail (f : wfacts) : bool := w_base_hash f && (w_io f =? 2).
@@ -303,13 +304,17 @@ Definition w_validated_cond (f : wfacts) : bool :=
    then w_exists f && negb (w_io f =? 1) && negb (w_cas_fail f) && negb (w_io f =? 3) && negb (w_io f =? 4)
    else (w_content f || (w_exists f && negb (w_io f =? 1) && negb (w_cas_fail f)))
         && negb (w_cas_fail f && w_exists f)
-        && (if w_lenient f then (w_pst f =? 0) || (w_policy f =? 1) else w_pst f =? 0))
+        && (w_pst f =? 0))                                  (* a salvaged carrier is never schema-validated *)
   && w_emit_ok f && w_schema f && w_has_schema f && negb (w_errs f)
   && ((w_post f <? 2) || ((w_post f =? 3) && negb (w_base_hash f && w_exists f))).  (* the re-check only exists with base_hash *)
 
 Definition wc_sound (f : wfacts) e := implb (vs_is 1 e) (w_schema f && w_has_schema f && negb (w_errs f)).
 Definition wc_unval_schema (f : wfacts) e := implb (negb (w_schema f) || negb (w_has_schema f)) (vs_is 2 e).
-Definition wc_unval_parse (f : wfacts) e := implb (w_parse_fail f && negb (w_salvaged f)) (vs_is 2 e).
+Definition wc_unval_parse (f : wfacts) e := implb (w_parse_fail f) (vs_is 2 e).
+Definition wc_salvaged (f : wfacts) e := implb (w_salvaged f) (vs_is 2 e && negb (e_name e) && negb (e_version e) && (e_verrs e =? 0)).
+(* the generated assignment sites of the flag `salvaged` compute exactly the fact w_salvaged *)
+Definition wc_flag (f : wfacts) (e : envl) :=
+  match write_salvaged_flag f with Some b => Bool.eqb b (w_salvaged f) | None => false end.
 Definition wc_invalid (f : wfacts) e :=
   implb (vs_is 3 e) ((e_verrs e =? 2) && e_name e && e_version e && w_errs f && w_schema f && w_has_schema f).
 Definition wc_valid_absent (f : wfacts) e := e_valid e =? 0.
@@ -317,7 +322,7 @@ Definition wc_char (f : wfacts) e := Bool.eqb (vs_is 1 e) (w_validated_cond f).
 Definition wc_named (f : wfacts) e := implb (vs_is 1 e) (e_name e && e_version e).
 Definition wc_error_unval (f : wfacts) e := implb (e_status e =? 2) (vs_is 2 e).
 Definition w_clauses := [@c_total wfacts; wc_sound; wc_unval_schema; wc_unval_parse; wc_invalid; wc_valid_absent; wc_char;
-                         wc_named; wc_error_unval].
+                         wc_named; wc_error_unval; wc_salvaged; wc_flag].
 Definition write_env0 f := write_env f false false.
 
 Lemma write_all : forall_w (all_clauses write_env0 w_clauses) = true.
@@ -353,26 +358,40 @@ Proof.
   intros Hwf He H. apply N.eqb_eq. apply (implb_elim _ _ (write_get f gh dg e wc_unval_schema Hwf He ltac:(cbn; tauto)) H).
 Qed.
 
-(* PARTIAL: a tokenise/parse failure gives UNVALIDATED -- unless lenient + parse_error_policy="salvage" *)
-Theorem write_unvalidated_on_parse_failure_partial f gh dg e : wf_w f -> write_env f gh dg = Some e ->
-  w_parse_fail f = true -> w_salvaged f = false -> e_vs e = UNVALIDATED.
+(* any tokenise/parse failure of the text octave_write parses (new content, or the existing file in changes mode)
+   gives UNVALIDATED -- unconditionally since /repo f3e003d (before: not under lenient + parse_error_policy="salvage",
+   finding C10-salvage-validated) *)
+Theorem write_unvalidated_on_parse_failure f gh dg e : wf_w f -> write_env f gh dg = Some e ->
+  w_parse_fail f = true -> e_vs e = UNVALIDATED.
 Proof.
-  intros Hwf He H1 H2. apply N.eqb_eq. apply (implb_elim _ _ (write_get f gh dg e wc_unval_parse Hwf He ltac:(cbn; tauto))).
-  rewrite H1, H2. reflexivity.
+  intros Hwf He H1. apply N.eqb_eq. apply (implb_elim _ _ (write_get f gh dg e wc_unval_parse Hwf He ltac:(cbn; tauto))).
+  exact H1.
 Qed.
-Definition write_unvalidated_on_parse_failure_full : Prop :=
-  forall f gh dg e, wf_w f -> write_env f gh dg = Some e -> w_parse_fail f = true -> e_vs e = UNVALIDATED.
-(* finding C10-salvage-validated: content that does not tokenise, lenient=true, parse_error_policy="salvage",
-   schema=META -> VALIDATED (with schema name and version), file written *)
+(* salvaged content: UNVALIDATED, no schema name / version, no validation_errors key *)
+Theorem write_salvaged_is_unvalidated f gh dg e : wf_w f -> write_env f gh dg = Some e -> w_salvaged f = true ->
+  e_vs e = UNVALIDATED /\ e_name e = false /\ e_version e = false /\ e_verrs e = 0.
+Proof.
+  intros Hwf He H1. pose proof (implb_elim _ _ (write_get f gh dg e wc_salvaged Hwf He ltac:(cbn; tauto)) H1) as H.
+  apply andb_true_iff in H as [H H4]. apply andb_true_iff in H as [H H3]. apply andb_true_iff in H as [H H2].
+  repeat split; [apply N.eqb_eq; exact H | apply negb_true_iff; exact H2 | apply negb_true_iff; exact H3 | apply N.eqb_eq; exact H4].
+Qed.
+(* the tie of the fact to the source: the flag local `salvaged`, evaluated from the assignment sites the translator
+   extracts (status_write_flags), IS w_salvaged.  Reverting the fix removes the flag table: None <> Some _. *)
+Theorem write_salvaged_flag_is_fact f : wf_w f -> write_salvaged_flag f = Some (w_salvaged f).
+Proof.
+  intro Hwf. destruct (write_clause f Hwf) as [e [_ Hc]]. specialize (Hc wc_flag ltac:(cbn; tauto)). unfold wc_flag in Hc.
+  destruct (write_salvaged_flag f) as [b|]; [|discriminate]. apply Bool.eqb_prop in Hc. rewrite Hc. reflexivity.
+Qed.
+(* regression (the witness of the former finding C10-salvage-validated): content that does not tokenise, lenient=true,
+   parse_error_policy="salvage", schema=META (builtin found, no errors), file written -> success, UNVALIDATED, no schema name *)
 Definition salvage_witness : wfacts := mk_wfacts 1 true true false false 0 false true 1 true true true true false false 1.
-Theorem write_unvalidated_on_parse_failure_refuted :
-  exists f e, wf_w f /\ write_env0 f = Some e /\ w_parse_fail f = true /\ e_vs e = VALIDATED /\ e_status e = 1.
+Example write_salvage_regression :
+  wf_w salvage_witness /\ w_parse_fail salvage_witness = true /\ w_salvaged salvage_witness = true /\
+  w_schema salvage_witness = true /\ w_has_schema salvage_witness = true /\ w_errs salvage_witness = false /\
+  exists e, write_env0 salvage_witness = Some e /\ e_vs e = UNVALIDATED /\ e_status e = 1 /\ e_name e = false /\ e_version e = false.
 Proof.
-  exists salvage_witness. eexists. split; [unfold wf_w; repeat split|]. split; [vm_compute; reflexivity|]. repeat split.
+  split; [unfold wf_w; repeat split|]. repeat (split; [reflexivity|]). eexists. split; [vm_compute; reflexivity|]. repeat split.
 Qed.
-Example write_not_salvaged_nonvacuous :
-  exists f, wf_w f /\ w_parse_fail f = true /\ w_salvaged f = false /\ w_schema f = true /\ w_has_schema f = true /\ w_errs f = false.
-Proof. exists (mk_wfacts 0 true true false false 0 false true 1 true true true true false false 1). unfold wf_w. repeat split. Qed.
 
 Theorem write_invalid_has_errors f gh dg e : wf_w f -> write_env f gh dg = Some e -> e_vs e = INVALID ->
   (e_verrs e =? 2) && e_name e && e_version e && w_errs f && w_schema f && w_has_schema f = true.
